@@ -82,6 +82,41 @@ def run_cli(report, n, rng):
         report_failure(report, "control", dict(kind="e2e-cli", case=ok, problem="valid input was rejected"))
 
 
+def run_masters(report, rng):
+    """masters that disagree on their source sets, in either direction, must stop the build"""
+    vf = ('output_file = "VF.ttf"\ncolor_format = "glyf_colr_1"\n[axis.wght]\nname = "Weight"\ndefault = 400\n'
+          '[master.a]\nstyle_name = "A"\nsrcs = ["a/*.svg"]\n[master.a.position]\nwght = 400\n'
+          '[master.b]\nstyle_name = "B"\nsrcs = ["b/*.svg"]\n[master.b.position]\nwght = 700\n')
+    for which in ("later master lacks a source", "later master has an extra source", "control (masters agree)"):
+        with scratch_dir("verif-c17m-") as d:
+            n = rng.randint(1, 3)
+            for m in ("a", "b"):
+                (d / m).mkdir()
+                for k in range(n):
+                    (d / m / f"emoji_u{0x1F600 + k:x}.svg").write_text(good(k + (2 if m == "b" else 0)))
+            if which.startswith("later master lacks"):
+                (d / "b" / f"emoji_u{0x1F600 + n - 1:x}.svg").unlink()
+                (d / "a" / f"emoji_u{0x1F600 + n:x}.svg").write_text(good(5))  # so that b is not empty
+                (d / "b" / f"emoji_u{0x1F600 + n:x}.svg").write_text(good(6))
+            elif which.startswith("later master has"):
+                (d / "b" / f"emoji_u{0x1F600 + n + 1:x}.svg").write_text(good(6))  # same colour: the palettes of the masters agree
+            (d / "vf.toml").write_text(vf)
+            t0 = time.time()
+            rc, out = build.run_cli(["--build_dir", d / "build", d / "vf.toml"], cwd=d)
+            fonts = [p for p in (d / "build").glob("VF.*") if p.suffix in (".ttf", ".otf")]
+            fresh = [p.name for p in fonts if p.stat().st_mtime >= t0 - 1]
+            r = dict(defect="masters disagree: " + which, format="glyf_colr_1 (variable)", exit=rc, fresh_font=fresh, log=out[-1200:])
+            report.count(("cli-masters", which), True)
+            report.hist("defect", "masters disagree" if not which.startswith("control") else "control (masters agree)")
+            if which.startswith("control"):
+                if rc != 0 or not fresh:
+                    report_failure(report, "masters_control", dict(kind="e2e-cli", case=r, problem="agreeing masters were rejected"))
+                    return
+            elif rc == 0 or fresh:
+                report_failure(report, "masters_accepted", dict(kind="e2e-cli", case=r, problem="masters with different source sets were accepted"))
+                return
+
+
 def run_accept(report, n, rng):
     """write_font._generate_color_font's acceptance of glyph names vs the model (in process)"""
     from nanoemoji.glyph import glyph_name
@@ -95,7 +130,7 @@ def run_accept(report, n, rng):
         ids = {}
         srcs = [(f"s{k}.svg", good(k), s) for k, s in enumerate(seqs)]
         try:
-            build.build_inprocess(dict(color_format="glyf_colr_1"), srcs)
+            build.build_inprocess(dict(color_format="glyf_colr_1"), srcs, cps_from_names=False)  # files are named s0.svg, s1.svg...
             accepted = True
         except ValueError:
             accepted = False
@@ -118,7 +153,7 @@ def main(argv):
     report = Report("C17", tier, common.seed_from_env())
     report.rule = (
         "real CLI runs: one defect class (duplicate codepoints / sequence / file name / colliding glyph names, malformed XML, "
-        "unparsable colour, unknown spreadMethod, palette index conflict, oversize CBDT bitmap) at a random "
+        "unparsable colour, unknown spreadMethod, palette index conflict, oversize CBDT bitmap; masters whose source sets differ in either direction) at a random "
         "position among 0-5 valid sources, in a colour format the class applies to; must exit non-zero and leave no fresh font; a "
         "valid control must succeed. In process: acceptance of glyph-name lists vs the model"
     )
@@ -127,6 +162,8 @@ def main(argv):
     if common.vo_ok("Corr/C17.v"):
         run_accept(report, 40 if tier == "quick" else 600, rng)
     run_cli(report, 24 if tier == "quick" else 400, rng)
+    if not report.violations:
+        run_masters(report, rng)
     if not st["proof_ok"] and not report.violations:
         report.violation("proof", dict(kind="proof", theorem="Props/C17.v", detail=report.notes.get("proof_failure")), found_input=False)
     report.open_obligations = [
